@@ -193,6 +193,8 @@ type FireRec struct {
 	// Deferred: the pending operation is a deferred call (P is the position of the defer statement)
 	Deferred bool
 	Fn       string // function containing the pending operation
+	// SelKey: the pending operation is a blocking select; name of its choice variable
+	SelKey string
 }
 
 // EnvRec: the environment cancels context Ctx at step Step (when G holds in the model).
@@ -581,7 +583,14 @@ func (m *M) step(k int) (err error) {
 						}
 					}
 				}
-				m.FireLog = append(m.FireLog, FireRec{P: tp, Step: k, Th: t, Name: m.threads[t].Name, Pos: pos, Op: op, G: fire, Deferred: isDef})
+				selKey := ""
+				if cfg.Status == stRun {
+					if sx, ok := m.curInstr(cfg).(*ssa.Select); ok && sx.Blocking {
+						fr := m.top(cfg)
+						selKey = fmt.Sprintf("sel!%s@%d.%d%s", fr.ID, fr.Blk, fr.Idx, loopsSig(fr.Loops))
+					}
+				}
+				m.FireLog = append(m.FireLog, FireRec{P: tp, Step: k, Th: t, Name: m.threads[t].Name, Pos: pos, Op: op, G: fire, Deferred: isDef, SelKey: selKey})
 			}
 			p := &path{cfg: cfg.clone(), g: fire, ov: newOv(), first: true, base: m.snap[key]}
 			t0n, r0n := m.c.NumTerms(), len(results)
